@@ -2,5 +2,5 @@ INIT Init
 NEXT Next
 CONSTANTS
   Layouts = {0, 1, 3, 5, 10, 15}
-  NestedKind = "include_if"
+  NestedKind = "include"
 INVARIANTS FirstWins EmitVec
